@@ -1,6 +1,11 @@
 package vsched
 
-import "reflect"
+import (
+	"reflect"
+	"runtime"
+	"sync"
+	"time"
+)
 
 // SendPoint is a scheduling point in front of `ch <- v`: it returns when the send cannot block.
 func SendPoint(ch interface{}) {
@@ -30,10 +35,12 @@ func Select(deflt bool, cases ...SelCase) int {
 	return x.park(g, &Op{Kind: KSelect, Cases: cases, Deflt: deflt})
 }
 
-// realSelect: pass-through emulation (used by the packages' own tests on rewritten sources and during
-// teardown): polls readiness without consuming, so that the caller's real operation performs the transfer.
+// realSelect: pass-through emulation outside a managed execution (set-up code that runs the
+// rewritten sources with real goroutines): polls until a case can proceed, without consuming,
+// so that the caller's real operation performs the transfer. Only one goroutine may receive
+// from a given channel in pass-through mode (true for the node's loops).
 func realSelect(deflt bool, cases []SelCase) int {
-	for {
+	for spin := 0; ; spin++ {
 		for i, c := range cases {
 			v := reflect.ValueOf(c.Ch)
 			if !v.IsValid() || v.IsNil() {
@@ -43,42 +50,40 @@ func realSelect(deflt bool, cases []SelCase) int {
 				if v.Cap() > 0 && v.Len() < v.Cap() {
 					return i
 				}
-			} else if v.Len() > 0 {
+			} else if v.Len() > 0 || globallyClosed(c.Ch) {
 				return i
 			}
 		}
 		if deflt {
 			return -1
 		}
-		// closed channels are receivable: try a non-blocking receive on receive cases is not possible
-		// without consuming; fall back to blocking select via reflect on the first pass
-		var rc []reflect.SelectCase
-		var idx []int
-		for i, c := range cases {
-			v := reflect.ValueOf(c.Ch)
-			if !v.IsValid() || v.IsNil() || c.Send {
-				continue
-			}
-			rc = append(rc, reflect.SelectCase{Dir: reflect.SelectRecv, Chan: v})
-			idx = append(idx, i)
+		if spin < 100 {
+			runtime.Gosched()
+		} else {
+			time.Sleep(50 * time.Microsecond)
 		}
-		if len(rc) == 0 {
-			select {} // nothing can ever proceed
-		}
-		chosen, val, ok := reflect.Select(rc)
-		if !ok {
-			return idx[chosen] // closed: the caller's real receive returns the zero value too
-		}
-		// a value was consumed: put it back is impossible; hand it over through a one-slot side channel
-		_ = val
-		panic("vsched: pass-through select consumed a value; run this code under a managed execution")
 	}
+}
+
+var (
+	gcMu     sync.Mutex
+	gcClosed = map[uintptr]bool{}
+)
+
+func globallyClosed(ch interface{}) bool {
+	gcMu.Lock()
+	defer gcMu.Unlock()
+	return gcClosed[chanPtr(ch)]
 }
 
 // Close closes ch and records it for the readiness rules.
 func Close(ch interface{}) {
 	if x := Active(); x != nil {
 		x.MarkClosed(ch)
+	} else {
+		gcMu.Lock()
+		gcClosed[chanPtr(ch)] = true
+		gcMu.Unlock()
 	}
 	reflect.ValueOf(ch).Close()
 }
